@@ -896,6 +896,18 @@ impl Dataset {
             return Ok((self.manifest.clone(), self.manifest_location.clone()));
         }
         let mut manifest = read_manifest(&self.object_store, &location.path, location.size).await?;
+        // Same gate as `load_manifest`: never adopt a version with reader flags we do not know.
+        if !can_read_dataset(manifest.reader_feature_flags) {
+            let message = format!(
+                "This dataset cannot be read by this version of Lance. \
+                 Please upgrade Lance to read this dataset.\n Flags: {}",
+                manifest.reader_feature_flags
+            );
+            return Err(Error::NotSupported {
+                source: message.into(),
+                location: location!(),
+            });
+        }
         if manifest.schema.has_dictionary_types() && manifest.should_use_legacy_format() {
             let reader = if let Some(size) = location.size {
                 self.object_store
